@@ -467,7 +467,7 @@ async fn scripted_peer(
     start: Instant,
     log: Arc<Mutex<PeerLog>>,
 ) {
-    scripted_peer_opt(r, w, preamble, script, start, log, false).await
+    scripted_peer_opt(r, w, preamble, script, start, log, false, None).await
 }
 
 /// `vanish`: once the script is exhausted the peer stops reading for ever without closing anything (a host that
@@ -480,8 +480,27 @@ async fn scripted_peer_opt(
     start: Instant,
     log: Arc<Mutex<PeerLog>>,
     vanish: bool,
+    chatty: Option<u64>,
 ) {
     let w = Arc::new(tokio::sync::Mutex::new(w));
+    if let Some(every) = chatty {
+        // a peer with traffic of its own: it sends a keep-alive REQUEST (and a padding frame) every `every` ms,
+        // whether or not it answers the client's requests. Requests are not answers.
+        let w3 = w.clone();
+        tokio::spawn(async move {
+            loop {
+                tokio::time::sleep(ms(every)).await;
+                let mut out = BytesMut::new();
+                let _ = FrameCodec.encode(Frame::control(Command::HeartRequest, 0), &mut out);
+                let _ = FrameCodec.encode(Frame::with_data(Command::Waste, 0, bytes::Bytes::from_static(b"\0\0\0")), &mut out);
+                let mut g = w3.lock().await;
+                if g.write_all(&out).await.is_err() {
+                    break;
+                }
+                let _ = g.flush().await;
+            }
+        });
+    }
     let mut buf = BytesMut::new();
     let mut codec = FrameCodec;
     let mut need_preamble = preamble;
@@ -572,7 +591,9 @@ fn hb(args: &[&str]) -> String {
     // mode = s | c | ct, optionally followed by the capacity in bytes of the client -> peer transport
     // (e.g. s64, c256): a bounded pipe, so that a padded packet is still being written while the peer
     // already reads and answers its first bytes; without digits the transport is unbounded
-    let mode_tok = args[0].to_string();
+    // a leading q: the peer also sends keep-alive requests of its own every 777 ms ("chatty" peer)
+    let chatty: Option<u64> = if args[0].starts_with('q') { Some(777) } else { None };
+    let mode_tok = args[0].trim_start_matches('q').to_string();
     let split = mode_tok.find(|c: char| c.is_ascii_digit()).unwrap_or(mode_tok.len());
     let mode = mode_tok[..split].to_string();
     let cap: Option<usize> = if split < mode_tok.len() { mode_tok[split..].parse().ok() } else { None };
@@ -596,7 +617,7 @@ fn hb(args: &[&str]) -> String {
         if mode == "s" || mode == "z" {
             let (c2s_w, c2s_r) = c2s_transport(cap);
             let (s2c_w, _h2, s2c_r, _tx2) = transport::pipe();
-            tokio::spawn(scripted_peer_opt(c2s_r, s2c_w, false, script, start, log.clone(), mode == "z"));
+            tokio::spawn(scripted_peer_opt(c2s_r, s2c_w, false, script, start, log.clone(), mode == "z", chatty));
             let s = Arc::new(Session::new_client(
                 s2c_r,
                 c2s_w,
@@ -619,7 +640,7 @@ fn hb(args: &[&str]) -> String {
                 let (c2s_w, c2s_r) = c2s_transport(cap);
                 let (s2c_w, _h2, s2c_r, _tx2) = transport::pipe();
                 if let Some((script, log)) = slot.lock().unwrap().take() {
-                    tokio::spawn(scripted_peer(c2s_r, s2c_w, true, script, start, log));
+                    tokio::spawn(scripted_peer_opt(c2s_r, s2c_w, true, script, start, log, false, chatty));
                 }
                 (Box::new(s2c_r) as BoxR, c2s_w)
             })));
